@@ -57,6 +57,11 @@ func random(size int, charset []rune) []byte {
 	sb.Grow(size)
 	// Calculate the number of bits required to represent the charset,
 	// e.g., for 62 characters, it would need 6 bits (since 62 -> 64 = 2^6)
+	if len(charset) == 1 {
+		// A single symbol needs no random bits (zero bits per symbol would divide by zero below).
+		return bytes.Repeat([]byte(string(charset[0])), size)
+	}
+
 	letterIdBits := int(math.Log2(float64(nearestPowerOfTwo(len(charset)))))
 	// Determine the corresponding bitmask,
 	// e.g., for 62 characters, the bitmask would be 111111.
